@@ -259,8 +259,9 @@ PROPS = {
         "level": "Every PSA_DHCPC_* value consists of [A-Za-z0-9,._-] for all inputs (env_value_safe / env_entries_safe, over Go's rune segmentation of "
                  "arbitrary bytes), the generated resolv.conf obeys the header/search/nameserver grammar for every environment (resolv_grammar), untouched "
                  "iff no valid name server — Lean theorems; correspondence with envEntry/dumpScriptConf, a real child process through Cbhandler and the "
-                 "real psa-dhcpc -syshook binary in a chroot.",
-        "props": ["C17"],
+                 "real psa-dhcpc -syshook binary in a chroot."
+                 " envEntry/dumpScriptConf (lib/client/callback) and resolvconf.Run as translated from the source on every run — the three regular expressions turned into character-class tables from their pattern text — equal the model's envEntry/dumpScriptConf/resolvRun (C17Code).",
+        "props": ["C17", "C17Code"],
         "streams": [{"test": "TestCliSan", "names": ["clisan"], "timeout": 900}],
         "rule": "domain payloads: every byte value at start/middle/end, newline/=/NUL/space/shell metacharacters, invalid and edge-case UTF-8, 255 random "
                 "bytes; interface configurations with 0..63 DNS servers, nil router/netmask, extreme MTU/lease; hostile raw environments for the "
